@@ -1629,7 +1629,9 @@ func ruleC08_7(c *Ctx, r *Rep) {
 	oj, _ := json.Marshal(map[string]any{"Replace": repl})
 	ovf := filepath.Join(tmp, "overlay.json")
 	os.WriteFile(ovf, oj, 0o644)
-	cmd := exec.Command("go", "build", "-overlay="+ovf, "-gcflags=-d=ssa/check_bce/debug=1", "./filter/")
+	// -l: no inlining, so that a kept check is reported in the function that contains the expression (and library
+	// code inlined into this package — strconv.Quote keeps checks on 32-bit targets — is not attributed to it)
+	cmd := exec.Command("go", "build", "-overlay="+ovf, "-gcflags=-l -d=ssa/check_bce/debug=1", "./filter/")
 	cmd.Dir = c.RepoDir
 	cmd.Env = append(os.Environ(), c.BuildEnv...)
 	out, runErr := cmd.CombinedOutput()
@@ -1669,12 +1671,9 @@ func ruleC08_7(c *Ctx, r *Rep) {
 		r.Undecided("C08.7", "C08.7:compile", token.NoPos, "compiling ./filter with bounds-check reporting failed: "+strings.TrimSpace(string(out)))
 		return
 	}
-	if other == 0 {
-		// the generic parser instantiated in this package always keeps some checks: seeing none means the flag was ignored
-		r.Undecided("C08.7", "C08.7:compile", token.NoPos, "the compiler reported no kept bounds check at all (not even in the instantiated parser library): the report flag had no effect")
-		return
-	}
-	r.OK("C08.7", "C08.7:filter-package-bounds-proved", token.NoPos, fmt.Sprintf("compiler prove pass: %d kept bounds checks in package filter's own sources (%d in library code instantiated there, not counted)", n, other))
+	// (that the report flag took effect is established by the positive control: an overlay function in this package
+	// whose slice bound cannot be proved must be listed on every run)
+	r.OK("C08.7", "C08.7:filter-package-bounds-proved", token.NoPos, fmt.Sprintf("compiler prove pass (inlining off): %d kept bounds checks in package filter's own sources (%d in library code instantiated there, not counted)", n, other))
 }
 
 // ---------------------------------------------------------------------------
